@@ -14,6 +14,10 @@ NA = {
 }
 
 CHECKS = {
+ "C04": dict(engine="K1", category="exploration", design="§4 C04",
+   technique="deterministic simulation of a two-party exchange: real client transport and real server middleware built from one generated description, joined by an in-process wire bridge inside a synctest bubble with tape-driven body streaming and simulator-chosen map orders",
+   text="Neither half's unit tests ever meet the other half. Here each run builds a server (untyped API + APIHandler) and a client call from the same tape-generated description and joins them by a bridge that uses net/http's real wire code (Request.Write → ReadRequest → handler → Response.Write → ReadResponse). Bodies are streamed: multipart writer goroutine → pipe → bridge pulls in tape-chosen chunks → server-side stream delivered to the binder in tape-chosen chunks; route build order, binder order, form/file order and path-substitution order are simulator-chosen permutations. Oracle: handler-received values == supplied values by declared type, and status/headers/decoded body at the response reader == what the handler returned. Mostly seeded input sampling through a two-party system (said plainly); the simulator makes the halves meet under streamed bodies and permuted orders.",
+   note="No faults injected (C12 is the faulty twin). Generator restrictions (HTTP's own normalisations, collection-format limits, unambiguous templates) are listed in the evidence assumptions; two known findings are recorded (path value \":\", urlencoded form on DELETE)."),
  "C06": dict(engine="SEQ", category="exploration", design="§4 C06",
    technique="deterministic simulation with stream fault injection: body presence signalled through net/http's wire parser over scripted body streams, the same wire request replayed on both binding entry points; reference admission model",
    text="Whether a request carries a body is decided by reading the stream; the simulator builds each request from wire bytes (Content-Length n / 0 / chunked / neither, parsed by net/http) and puts a scripted stream under it (empty chunked body, zero-length reads before the first byte, first byte together with EOF, error before or after the first byte). The same wire request is given, on fresh streams, to Context.BindValidRequest and Context.BindAndValidate for tape-generated consumes lists (concrete, type/*, */*, parameterised, empty) × default media type × registered consumers × Content-Type spellings × methods; a reference model decides admission, 415/400, the consumer identity and agreement of the two entry points. The header-grammar half is seeded input sampling (said plainly); the body-presence half is stream fault injection.",
